@@ -554,9 +554,27 @@ fn code_of<T: TryFrom<u8>>(c: &Value) -> R<T> {
 }
 
 macro_rules! connect_build {
-    ($b:expr, $p:expr) => {{
+    ($b:expr, $p:expr) => {
+        connect_build!($b, $p, false)
+    };
+    ($b:expr, $p:expr, $decoy:expr) => {{
         let p = $p;
-        let mut b = $b.clean_start(p["clean"].as_bool().unwrap_or(true));
+        let mut b = $b;
+        if $decoy {
+            // every setter is first called with a different value: the last call must win
+            b = b.clean_start(!p["clean"].as_bool().unwrap_or(true)).keep_alive(4660).client_id("decoy-client").map_err(e)?;
+            if let Some(w) = opt(&p["will"]) {
+                let q = (w["qos"].as_u64().unwrap_or(0) + 1) % 3;
+                b = b.will_message("decoy/topic", vec![1u8, 2, 3], qos_of(q)?, !w["retain"].as_bool().unwrap_or(false)).map_err(e)?;
+            }
+            if opt(&p["user"]).is_some() {
+                b = b.user_name("decoy-user").map_err(e)?;
+            }
+            if opt(&p["pass"]).is_some() {
+                b = b.password(vec![9u8; 5]).map_err(e)?;
+            }
+        }
+        let mut b = b.clean_start(p["clean"].as_bool().unwrap_or(true));
         let ka = p["ka"].as_u64().unwrap_or(0);
         if ka > 65535 {
             return Err("inexpressible: keep alive".into());
@@ -678,6 +696,47 @@ fn build_w<W: WId>(p: &Value) -> R<Box<dyn Pk>> {
             Ok(bx(v3::GenericUnsuback::<W>::builder().packet_id(pid()?).build().map_err(e)?))
         }
         _ => Err(format!("unknown kind {k}")),
+    }
+}
+
+/// Builder call sequences other than the canonical one (C02 quantifies over what the builders ACCEPT):
+///   "overwrite": every CONNECT setter is called twice, first with a decoy value - must build the same packet;
+///   "orphan":    v5.0 CONNECT without a will but with will properties - must be refused or round-trip.
+/// `None` = the variant does not apply to this packet.
+pub fn build_variant(p: &Value, variant: &str) -> Option<R<Box<dyn Pk>>> {
+    let k = p["k"].as_str().unwrap_or("");
+    if k != "connect" {
+        return None;
+    }
+    let v5p = p["v"].as_str() == Some("v50");
+    let no_props = |p: &Value| p["props"].as_array().map_or(true, |a| a.is_empty());
+    let go = || -> R<Box<dyn Pk>> {
+        if !v5p {
+            if !no_props(p) {
+                return Err("inexpressible: v3.1.1 properties".into());
+            }
+            let b = connect_build!(v3::Connect::builder(), p, true);
+            return Ok(bx(b.build().map_err(e)?));
+        }
+        let mut b = connect_build!(v5::Connect::builder(), p, variant == "overwrite");
+        if !no_props(p) {
+            b = b.props(mk_props(&p["props"])?);
+        }
+        if let Some(w) = opt(&p["will"]) {
+            if !no_props(w) {
+                b = b.will_props(mk_props(&w["props"])?);
+            }
+        } else if variant == "orphan" {
+            let mut ps = Properties::new();
+            ps.push(mqtt::packet::PayloadFormatIndicator::new(mqtt::packet::PayloadFormat::String).map_err(e)?.into());
+            b = b.will_props(ps);
+        }
+        Ok(bx(b.build().map_err(e)?))
+    };
+    match variant {
+        "overwrite" => Some(go()),
+        "orphan" if v5p && opt(&p["will"]).is_none() => Some(go()),
+        _ => None,
     }
 }
 
